@@ -124,6 +124,29 @@ static CLK: HClock = HClock(AtomicU64::new(0));
 
 type Scenario = fn();
 
+// ---- scheduling points for the crate's handle counters (verif::sync::AtomicUsize hook)
+static REG: std::sync::Mutex<Vec<(usize, std::sync::Arc<loom::sync::atomic::AtomicUsize>)>> = std::sync::Mutex::new(Vec::new());
+fn sched_hook(addr: usize) {
+    let a = {
+        let mut r = REG.lock().unwrap();
+        match r.iter().find(|e| e.0 == addr) {
+            Some(e) => e.1.clone(),
+            None => {
+                let a = std::sync::Arc::new(loom::sync::atomic::AtomicUsize::new(0));
+                r.push((addr, a.clone()));
+                a
+            }
+        }
+    };
+    // one RMW on a per-counter loom atomic: counter operations of different threads become
+    // dependent scheduling points (the std lock above is released before loom may switch)
+    a.fetch_add(1, Ordering::SeqCst);
+}
+fn reset_hook_registry() {
+    REG.lock().unwrap().clear();
+}
+
+
 // ------------------------------------------------------------------ mutex
 
 fn mutex_counter(fair: bool) {
@@ -447,6 +470,80 @@ fn mpmc_last_sender_closes() {
     assert_eq!(got, vec![5], "C11: accepted value must be delivered before None");
 }
 
+/// a transient clone/drop of a sender races with the drop of another sender clone while the
+/// original sender and the receiver stay alive: the channel must stay open
+fn mpmc_transient_clone() {
+    let (tx, rx) = sh::generic_channel::<LoomRaw, u32, FixedHeapBuf<u32>>(1);
+    let _ = rx.try_receive();
+    let tx_a = tx.clone();
+    let tx_b = tx.clone();
+    let h1 = loom::thread::spawn(move || {
+        let t = tx_a.clone();
+        drop(t);
+        drop(tx_a);
+    });
+    let h2 = loom::thread::spawn(move || {
+        drop(tx_b);
+    });
+    h1.join().unwrap();
+    h2.join().unwrap();
+    assert!(tx.try_send(1).is_ok(), "C11: channel closed although a sender and a receiver handle are alive");
+    assert_eq!(rx.try_receive().ok(), Some(1));
+    drop(tx);
+    assert!(matches!(rx.try_receive(), Err(futures_intrusive::channel::TryReceiveError::Closed)), "C11: channel not closed after the last sender was dropped");
+}
+
+/// receiver clones are dropped on two threads, one receiver stays: still open; then the last one goes: closed
+fn mpmc_receiver_clones() {
+    let (tx, rx) = sh::generic_channel::<LoomRaw, u32, FixedHeapBuf<u32>>(1);
+    let _ = rx.try_receive();
+    let rx_a = rx.clone();
+    let rx_b = rx.clone();
+    let h1 = loom::thread::spawn(move || drop(rx_a));
+    let h2 = loom::thread::spawn(move || {
+        let r = rx_b.clone();
+        drop(rx_b);
+        drop(r);
+    });
+    h1.join().unwrap();
+    h2.join().unwrap();
+    assert!(tx.try_send(1).is_ok(), "C11: channel closed although a sender and a receiver handle are alive");
+    drop(rx);
+    assert!(tx.try_send(2).is_err(), "C11: channel not closed after the last receiver was dropped");
+}
+
+fn state_handles_race() {
+    let (tx, rx) = sh::generic_state_broadcast_channel::<LoomRaw, u32>();
+    let _ = rx.try_receive(StateId::new());
+    let rx_a = rx.clone();
+    let rx_b = rx.clone();
+    let tx_a = tx.clone();
+    let h1 = loom::thread::spawn(move || {
+        drop(rx_a);
+        drop(tx_a);
+    });
+    let h2 = loom::thread::spawn(move || drop(rx_b));
+    h1.join().unwrap();
+    h2.join().unwrap();
+    assert!(tx.send(1).is_ok(), "C11: state channel closed although a sender and a receiver handle are alive");
+    drop(rx);
+    assert!(tx.send(2).is_err(), "C11: state channel not closed after the last receiver was dropped");
+}
+
+fn bcast_handles_race() {
+    let (tx, rx) = sh::generic_oneshot_broadcast_channel::<LoomRaw, u32>();
+    let _ = poll_once_and_drop(rx.receive());
+    let rx_a = rx.clone();
+    let rx_b = rx.clone();
+    let h1 = loom::thread::spawn(move || drop(rx_a));
+    let h2 = loom::thread::spawn(move || drop(rx_b));
+    h1.join().unwrap();
+    h2.join().unwrap();
+    assert!(tx.send(5).is_ok(), "C11: oneshot broadcast channel closed although the sender and a receiver handle are alive");
+    let v = loom::future::block_on(async { rx.receive().await });
+    assert_eq!(v, Some(5));
+}
+
 // ---------------------------------------------------------------- oneshot
 
 fn oneshot_competing() {
@@ -559,7 +656,11 @@ const SCENARIOS: &[(&str, &str, Scenario)] = &[
     ("mpmc_2p1c_cap0_seq", "thorough:C09,C10", mpmc_2p1c_cap0_seq),
     ("mpmc_abandon_cap0", "C01,C08,C10", mpmc_abandon_cap0),
     ("mpmc_abandon_cap1", "C01,C08,C10", mpmc_abandon_cap1),
-    ("mpmc_last_sender_closes", "C11", mpmc_last_sender_closes),
+    ("mpmc_last_sender_closes", "hook:C11", mpmc_last_sender_closes),
+    ("mpmc_transient_clone", "hook:C11", mpmc_transient_clone),
+    ("mpmc_receiver_clones", "hook:C11", mpmc_receiver_clones),
+    ("state_handles_race", "hook:C11", state_handles_race),
+    ("bcast_handles_race", "hook:C11", bcast_handles_race),
     ("oneshot_competing", "C01,C12", oneshot_competing),
     ("broadcast_all", "C12", broadcast_all),
     ("state_followers", "C01,C13", state_followers),
@@ -571,15 +672,18 @@ fn main() {
     match args.get(1).map(|s| s.as_str()) {
         Some("list") => {
             for (n, p, _) in SCENARIOS {
-                println!("{} {}", n, p);
+                println!("{} {}", n, p.replace("hook:", ""));
             }
         }
         Some("run") => {
             let name = args.get(2).expect("scenario name");
-            let (_, _, f) = SCENARIOS.iter().find(|s| s.0 == name).unwrap_or_else(|| {
+            let (_, props, f) = SCENARIOS.iter().find(|s| s.0 == name).unwrap_or_else(|| {
                 eprintln!("unknown scenario {}", name);
                 std::process::exit(2)
             });
+            if props.contains("hook:") {
+                futures_intrusive::verif::sync::set_sched_hook(Some(sched_hook));
+            }
             let pb = args.iter().position(|a| a == "--pb").and_then(|i| args.get(i + 1)).map(|s| s.as_str()).unwrap_or("2");
             if args.iter().any(|a| a == "--no-preempt-in-cs") {
                 PREEMPT_IN_CS.store(false, Ordering::Relaxed);
@@ -595,6 +699,7 @@ fn main() {
             let f = *f;
             b.check(move || {
                 ITERS.fetch_add(1, Ordering::Relaxed);
+                reset_hook_registry();
                 f();
             });
             let dt = t0.elapsed().as_secs_f64();
